@@ -265,3 +265,24 @@ package fsm
 //@ results err
 //@ requires restore != nil
 //@ ensures[decoded-entry-stored] err == nil ==> T_system_metadata(req.Key) != nil && T_system_metadata(req.Key).Key == req.Key && T_system_metadata(req.Key).Value == req.Value && T_system_metadata(req.Key).ModifyIndex == req.ModifyIndex
+
+//@ file snapshot_ce.go
+// the two virtual-IP tables: every assignment row and every free-list row (the allocator's counter record included,
+// see state.Snapshot.FreeVirtualIPs) goes to the stream as <type byte><row value>, in iteration order
+//@ func snapshot.persistVirtualIPs
+//@ props C02
+//@ opt record persistVirtualIPs
+//@ results err
+//@ requires s != nil && s.state != nil
+//@ ensures[every-row-written] err == nil ==> outLen() == old(outLen()) + 2*itLen(serviceVIPs) + 2*itLen(freeVIPs) && (forall j int :: 0 <= j && j < itLen(serviceVIPs) ==> outIsBytes(old(outLen()) + 2*j) && eq(outBytes(old(outLen()) + 2*j), byte1(structs.ServiceVirtualIPRequestType)) && !outIsBytes(old(outLen()) + 2*j + 1) && eq(outObj(old(outLen()) + 2*j + 1).(state.ServiceVirtualIP), itElem(serviceVIPs, j).(state.ServiceVirtualIP))) && (forall j int :: 0 <= j && j < itLen(freeVIPs) ==> outIsBytes(old(outLen()) + 2*itLen(serviceVIPs) + 2*j) && eq(outBytes(old(outLen()) + 2*itLen(serviceVIPs) + 2*j), byte1(structs.FreeVirtualIPRequestType)) && !outIsBytes(old(outLen()) + 2*itLen(serviceVIPs) + 2*j + 1) && eq(outObj(old(outLen()) + 2*itLen(serviceVIPs) + 2*j + 1).(state.FreeVirtualIP), itElem(freeVIPs, j).(state.FreeVirtualIP)))
+//@ ensures[every-stored-assignment-is-iterated] err == nil ==> forall k string :: T_service_virtual_ips(k) != nil ==> exists j int :: 0 <= j && j < itLen(serviceVIPs) && itElem(serviceVIPs, j) == T_service_virtual_ips(k)
+//@ ensures[every-stored-free-list-row-is-iterated] err == nil ==> forall k string :: T_free_virtual_ips(k) != nil ==> exists j int :: 0 <= j && j < itLen(freeVIPs) && itElem(freeVIPs, j) == T_free_virtual_ips(k)
+//@ loop 1 invariant[pos] 0 <= itPos(serviceVIPs) && itPos(serviceVIPs) <= itLen(serviceVIPs)
+//@ loop 1 invariant[cursor] (entry != nil ==> itPos(serviceVIPs) >= 1 && entry == itElem(serviceVIPs, itPos(serviceVIPs)-1)) && (entry == nil ==> itPos(serviceVIPs) == itLen(serviceVIPs))
+//@ loop 1 invariant[written-so-far] outLen() == old(outLen()) + 2*ite(entry != nil, itPos(serviceVIPs) - 1, itPos(serviceVIPs)) && forall j int :: 0 <= j && j < ite(entry != nil, itPos(serviceVIPs) - 1, itPos(serviceVIPs)) ==> outIsBytes(old(outLen()) + 2*j) && eq(outBytes(old(outLen()) + 2*j), byte1(structs.ServiceVirtualIPRequestType)) && !outIsBytes(old(outLen()) + 2*j + 1) && eq(outObj(old(outLen()) + 2*j + 1).(state.ServiceVirtualIP), itElem(serviceVIPs, j).(state.ServiceVirtualIP))
+//@ loop 1 invariant[every-stored-assignment-is-iterated] forall k string :: T_service_virtual_ips(k) != nil ==> exists j int :: 0 <= j && j < itLen(serviceVIPs) && itElem(serviceVIPs, j) == T_service_virtual_ips(k)
+//@ loop 2 invariant[pos] 0 <= itPos(freeVIPs) && itPos(freeVIPs) <= itLen(freeVIPs)
+//@ loop 2 invariant[cursor] (entry != nil ==> itPos(freeVIPs) >= 1 && entry == itElem(freeVIPs, itPos(freeVIPs)-1)) && (entry == nil ==> itPos(freeVIPs) == itLen(freeVIPs))
+//@ loop 2 invariant[first-table-written] forall j int :: 0 <= j && j < itLen(serviceVIPs) ==> outIsBytes(old(outLen()) + 2*j) && eq(outBytes(old(outLen()) + 2*j), byte1(structs.ServiceVirtualIPRequestType)) && !outIsBytes(old(outLen()) + 2*j + 1) && eq(outObj(old(outLen()) + 2*j + 1).(state.ServiceVirtualIP), itElem(serviceVIPs, j).(state.ServiceVirtualIP))
+//@ loop 2 invariant[written-so-far] outLen() == old(outLen()) + 2*itLen(serviceVIPs) + 2*ite(entry != nil, itPos(freeVIPs) - 1, itPos(freeVIPs)) && forall j int :: 0 <= j && j < ite(entry != nil, itPos(freeVIPs) - 1, itPos(freeVIPs)) ==> outIsBytes(old(outLen()) + 2*itLen(serviceVIPs) + 2*j) && eq(outBytes(old(outLen()) + 2*itLen(serviceVIPs) + 2*j), byte1(structs.FreeVirtualIPRequestType)) && !outIsBytes(old(outLen()) + 2*itLen(serviceVIPs) + 2*j + 1) && eq(outObj(old(outLen()) + 2*itLen(serviceVIPs) + 2*j + 1).(state.FreeVirtualIP), itElem(freeVIPs, j).(state.FreeVirtualIP))
+//@ loop 2 invariant[every-stored-row-is-iterated] (forall k string :: T_service_virtual_ips(k) != nil ==> exists j int :: 0 <= j && j < itLen(serviceVIPs) && itElem(serviceVIPs, j) == T_service_virtual_ips(k)) && (forall k string :: T_free_virtual_ips(k) != nil ==> exists j int :: 0 <= j && j < itLen(freeVIPs) && itElem(freeVIPs, j) == T_free_virtual_ips(k))
